@@ -5,12 +5,14 @@ Everything that depends on the sampled schedule as a whole (cumsum + scatter ove
 online generators, Poisson-interval silence) is bounded-checked over seeds in native/c19.py."""
 from __future__ import annotations
 
+import ast
+
 import z3
 
 from pyvc import tensor as tz
 from pyvc.harness import contract
 from pyvc.models import Model
-from pyvc.sym import SymRaise, ceil_real, floor_real, num
+from pyvc.sym import SV, SymRaise, Unsupported, ceil_real, floor_real, num
 from pyvc.tensor import T
 
 P = "C19"
@@ -144,7 +146,8 @@ def floor_gap(c):
 ASSUMPTIONS = [
     "RNG draws are universally quantified: exponential draws xi_j are arbitrary reals (>= 0 used only in the gap lemma), Bernoulli draws arbitrary booleans constrained only by p = 0 => never, p >= 1 => always",
     "A1 real arithmetic: refrac/dt exact (the IEEE behaviour of refrac // dt or refrac / dt for non-representable dt is exercised by the bounded stand-in with dt = 0.1)",
-    "NOT proved (bounded over seeds only): cumsum + scatter over the symbolic number of bins (whole offline raster), the online generators, Poisson-interval encoders' zero silence, reproducibility (torch RNG determinism is trusted)",
+    "NOT proved (bounded over seeds only): cumsum + scatter over the symbolic number of bins (whole offline raster), Poisson-interval OFFLINE encoder zero silence, reproducibility beyond generator forwarding (torch RNG determinism is trusted)",
+    "online generators: for any number of steps by loop contracts (one arbitrary iteration of the real body + invariant; lean invariant_fold is the induction); the [steps<=3] contracts are kept as unrolled cross-checks of the loop-contract machinery",
 ]
 
 
@@ -346,4 +349,175 @@ MUTANTS = [
     dict(file=EN, func="homogeneous_poisson_exp_interval", old="            + refrac\n", new="", contracts=["homogeneous_poisson_exp_interval[intervals]"]),
     dict(file=EN, func="homogenous_poisson_bernoulli_approx", old="res.clamp_max_(1.0)", new="res.clamp_min_(1.0)", contracts=["homogenous_poisson_bernoulli_approx"]),
     dict(file=EN, func="homogenous_poisson_bernoulli_approx", old='"... -> t ...", t=int(steps)', new='"... -> t ...", t=int(steps) + 1', contracts=["homogenous_poisson_bernoulli_approx"]),
+]
+
+
+# ------------------------------------------------------------------------------------------------------------------
+# online encoders for an ARBITRARY (symbolic) number of steps: loop contracts.  The `for _ in range(steps)` loop of the
+# real generator is not unrolled: the interpreter hook `loop_contracts` hands it to `_range_loop`, which checks the
+# invariant at loop entry, replaces the loop-carried tensors by arbitrary ones that satisfy the invariant, runs the real
+# body ONCE at an arbitrary iteration, and checks the invariant and the per-iteration postconditions afterwards.
+# lean/Induction.lean invariant_fold is the induction (entry + preservation => every iteration).
+def _range_loop(c, qualname, carried, fresh_state, ordinal=0):
+    """returns `info`, filled when the loop is reached: count, entry (carried values at loop entry), in_range, post (carried
+    values after the arbitrary iteration), yields (values yielded by that iteration)"""
+    info = {"reached": 0}
+
+    def handler(interp, node, env, mod, cls, fn):
+        info["reached"] += 1
+        if not (isinstance(node.iter, ast.Call) and ast.unparse(node.iter.func) == "range" and 1 <= len(node.iter.args) <= 2 and not node.orelse):
+            raise Unsupported("loop under contract is no longer `for _ in range(...)`")
+        args = [num(interp.eval(a, env, mod, cls)) for a in node.iter.args]
+        lo, hi = (z3.IntVal(0), args[0]) if len(args) == 1 else args
+        info["count"] = hi - lo
+        info["entry"] = {n: env.lookup(n) for n in carried}
+        i = z3.Int(f"iteration_{qualname}")
+        for n, v in fresh_state(info).items():
+            env.set(n, v)
+        if isinstance(node.target, ast.Name):
+            env.set(node.target.id, SV(i))
+        info["in_range"] = interp.truth(SV(z3.And(lo <= i, i < hi)))
+        before = len(interp.gen_stack[-1]) if interp.gen_stack else 0
+        info["draws_before"] = info["draw_count"]() if "draw_count" in info else 0
+        if info["in_range"]:
+            interp.exec_block(node.body, env, mod, cls, fn)
+        info["post"] = {n: env.lookup(n) for n in carried}
+        info["yields"] = list(interp.gen_stack[-1][before:]) if interp.gen_stack else []
+        info["draws_in_iteration"] = (info["draw_count"]() - info["draws_before"]) if "draw_count" in info else None
+
+    c.interp.loop_contracts[(qualname, ordinal)] = handler
+    return info
+
+
+@contract(P, "homogenous_poisson_bernoulli_approx_online[any number of steps]", [(EN, "homogenous_poisson_bernoulli_approx_online")], min_obligations=5)
+def bernoulli_online_unbounded(c):
+    x = c.pw("intensity_hz")
+    dt = c.real("dt")
+    steps = c.int("steps")
+    c.require(x.f >= 0, dt > 0, steps >= 0)
+    gens, undo = _record_bernoulli(c)
+    info = _range_loop(c, "homogenous_poisson_bernoulli_approx_online", (), lambda info: {})
+    info["draw_count"] = lambda: len(gens)
+    try:
+        out = c.outcome(c.function(EN, "homogenous_poisson_bernoulli_approx_online"), x, steps, dt, generator="<the generator>")
+    finally:
+        undo()
+    c.expect_return(out)
+    c.ensure("the_loop_is_under_contract", info["reached"] == 1)
+    c.ensure("one_iteration_per_step", info["count"] == steps.z)
+    c.ensure("nothing_yielded_outside_the_loop", len(list(out.value)) == len(info["yields"]))
+    if info["in_range"]:
+        ys = info["yields"]
+        c.ensure("each_iteration_yields_exactly_one_slice", len(ys) == 1)
+        sl = ys[0]
+        c.ensure("each_iteration_draws_once_from_the_given_generator", info["draws_in_iteration"] == 1 and gens[-1] == "<the generator>")
+        c.ensure("slice_boolean_with_the_input_layout", sl.dtype == "bool" and sl.tlen is None)
+        c.ensure("silent_at_zero_intensity", z3.Implies(x.f == 0, z3.Not(sl.f)))
+        c.ensure("certain_at_saturating_intensity", z3.Implies(x.f / 1000 * dt.z >= 1, sl.f))
+        c.canary("canary_always_silent", z3.Not(sl.f))
+
+
+@contract(P, "poisson_interval_online[any number of steps]", [(EN, "poisson_interval_online")], min_obligations=5)
+def poisson_online_unbounded(c):
+    x = c.pw("intensity_hz")
+    dt = c.real("dt")
+    steps = c.int("steps")
+    c.require(x.f >= 0, dt > 0, steps >= 0)
+    undo = _with_draws(c, "poisson")
+
+    def fresh_state(info):
+        return {"intervals": c.pw("intervals_at_an_arbitrary_iteration")}  # no invariant needed: the mask is loop-invariant code
+
+    info = _range_loop(c, "poisson_interval_online", ("intervals",), fresh_state)
+    info["draw_count"] = lambda: len(undo.generators)
+    try:
+        out = c.outcome(c.function(EN, "poisson_interval_online"), x, steps, dt, generator="<the generator>")
+    finally:
+        undo()
+    c.expect_return(out)
+    c.ensure("the_loop_is_under_contract", info["reached"] == 1)
+    c.ensure("one_iteration_per_step", info["count"] == steps.z)
+    c.ensure("nothing_yielded_outside_the_loop", len(list(out.value)) == len(info["yields"]))
+    c.ensure("initial_intervals_drawn_from_the_given_generator", len(undo.generators) >= 1 and undo.generators[0] == "<the generator>")
+    if info["in_range"]:
+        ys = info["yields"]
+        c.ensure("each_iteration_yields_exactly_one_slice", len(ys) == 1)
+        sl = ys[0]
+        c.ensure("each_iteration_redraws_once_from_the_given_generator", info["draws_in_iteration"] == 1 and undo.generators[-1] == "<the generator>")
+        c.ensure("slice_boolean", sl.dtype == "bool" and sl.tlen is None)
+        c.ensure("silent_at_zero_intensity", z3.Implies(x.f == 0, z3.Not(sl.f)))
+        c.canary("canary_always_silent", z3.Not(sl.f))
+
+
+@contract(P, "homogeneous_poisson_exp_interval_online[any number of steps]", [(EN, "homogeneous_poisson_exp_interval_online")], min_obligations=6)
+def refractory_online_unbounded(c):
+    """ghost state per element: `spiked` (it has fired before) and `g` (iterations since that spike; 0 in the iteration after
+    it).  Invariant: spiked => intervals + g >= rho (rho = refrac / dt).  A spike needs intervals - 1 < 1, so with the
+    invariant g > rho - 2: the distance g + 1 to the previous spike exceeds rho - 1, i.e. is >= rho when rho is whole"""
+    f_hz = c.pw("f_hz")
+    dt = c.real("dt")
+    steps = c.int("steps")
+    rmode = c.choice("refrac", ["none", "value"])
+    comp = c.choice("compensate", [True, False])
+    c.require(f_hz.f > 0, dt > 0, steps >= 0)
+    rho_whole = c.int("refractory_period_in_whole_steps")
+    # the refractory period is given as rho steps: refrac = rho * dt (rho = 1 when it defaults to the step time); the real
+    # code's refrac / step_time then cancels to rho and the VCs stay linear in rho
+    rho = c.real("refractory_period_in_steps").z if rmode == "value" else z3.RealVal(1)
+    refrac = SV(rho * dt.z) if rmode == "value" else None
+    c.require(rho >= 0)
+    if comp:
+        c.require(f_hz.f * rho * dt.z < 1000)  # the encoder module's own validity test: f * refrac < 1000
+    spiked, g = c.bool("spiked_before"), c.int("iterations_since_that_spike")
+    c.require(g >= 0)
+    inv = lambda iv, s, gg: z3.Implies(s, iv + z3.ToReal(gg) >= rho)  # noqa: E731
+    undo = _with_draws(c, "exp")
+
+    def fresh_state(info):
+        iv = c.pw("intervals_at_an_arbitrary_iteration")
+        c.require(inv(iv.f, spiked.z, g.z))
+        return {"intervals": iv}
+
+    info = _range_loop(c, "homogeneous_poisson_exp_interval_online", ("intervals",), fresh_state)
+    info["draw_count"] = lambda: len(undo.generators)
+    try:
+        out = c.outcome(c.function(EN, "homogeneous_poisson_exp_interval_online"), f_hz, steps, dt, refrac=refrac, compensate=comp, generator="<the generator>")
+    finally:
+        undo()
+    c.expect_return(out)
+    c.ensure("the_loop_is_under_contract", info["reached"] == 1)
+    c.ensure("one_iteration_per_step", info["count"] == steps.z)
+    c.ensure("nothing_yielded_outside_the_loop", len(list(out.value)) == len(info["yields"]))
+    c.ensure("initial_intervals_drawn_from_the_given_generator", len(undo.generators) >= 1 and undo.generators[0] == "<the generator>")
+    e = info["entry"]["intervals"]
+    c.ensure("invariant_at_loop_entry", inv(e.f, z3.BoolVal(False), z3.IntVal(0)))
+    c.ensure("first_interval_is_at_least_the_refractory_period", e.f >= rho)
+    if info["in_range"]:
+        ys = info["yields"]
+        c.ensure("each_iteration_yields_exactly_one_slice", len(ys) == 1)
+        sl = ys[0]
+        c.ensure("each_iteration_redraws_once_from_the_given_generator", info["draws_in_iteration"] == 1 and undo.generators[-1] == "<the generator>")
+        c.ensure("slice_boolean", sl.dtype == "bool" and sl.tlen is None)
+        post = info["post"]["intervals"]
+        dist = z3.ToReal(g.z) + 1
+        whole = rho == z3.ToReal(rho_whole.z)
+        c.ensure("two_spikes_of_an_element_are_more_than_rho_minus_one_steps_apart", z3.Implies(z3.And(spiked.z, sl.f), dist > rho - 1))
+        c.ensure("two_spikes_of_an_element_are_at_least_the_refractory_period_apart", z3.Implies(z3.And(spiked.z, sl.f, whole), dist >= rho))
+        s2 = z3.Or(spiked.z, sl.f)
+        g2 = z3.If(sl.f, z3.IntVal(0), g.z + 1)
+        c.ensure("invariant_preserved", inv(post.f, s2, g2))
+        c.canary("canary_never_two_spikes_in_a_row", z3.Not(z3.And(spiked.z, g.z == 0, sl.f)))
+        c.canary("canary_always_silent", z3.Not(sl.f))
+
+
+ANY = "[any number of steps]"
+MUTANTS += [
+    dict(file=EN, func="homogeneous_poisson_exp_interval_online", old="                torch.empty_like(intervals[spikes]).exponential_(\n                    1.0, generator=generator\n                )", new="                torch.empty_like(intervals[spikes]).exponential_(\n                    1.0\n                )", contracts=["homogeneous_poisson_exp_interval_online" + ANY], name="seed C19d (loop contract): in-loop redraw ignores the generator"),
+    dict(file=EN, func="homogeneous_poisson_exp_interval_online", old="                * inputs[spikes]\n                + refrac\n            )\n", new="                * inputs[spikes]\n            )\n", contracts=["homogeneous_poisson_exp_interval_online" + ANY], name="loop contract: redrawn interval without the refractory offset (invariant not preserved)"),
+    dict(file=EN, func="homogeneous_poisson_exp_interval_online", old="            spikes = intervals < 1\n", new="            spikes = intervals < 2\n", contracts=["homogeneous_poisson_exp_interval_online" + ANY], name="loop contract: fires one step early"),
+    dict(file=EN, func="homogeneous_poisson_exp_interval_online", old="            + refrac\n        )\n\n        # main loop", new="        )\n\n        # main loop", contracts=["homogeneous_poisson_exp_interval_online" + ANY], name="loop contract: first interval without the refractory offset"),
+    dict(file=EN, func="poisson_interval_online", old="            spikes = torch.logical_and(intervals < 1, mask)", new="            spikes = intervals < 1", contracts=["poisson_interval_online" + ANY], name="seed C19b (loop contract): mask dropped"),
+    dict(file=EN, func="poisson_interval_online", old="        for _ in range(steps):\n            # decrement intervals", new="        for _ in range(steps + 1):\n            # decrement intervals", contracts=["poisson_interval_online" + ANY], name="loop contract: one slice too many"),
+    dict(file=EN, func="homogenous_poisson_bernoulli_approx_online", old="        for _ in range(steps):\n            # sample directly", new="        for _ in range(1, steps):\n            # sample directly", contracts=["homogenous_poisson_bernoulli_approx_online" + ANY], name="loop contract: one slice too few"),
+    dict(file=EN, func="homogenous_poisson_bernoulli_approx_online", old="            yield torch.bernoulli(res, generator=generator).bool()", new="            yield torch.bernoulli(res, generator=generator).bool()\n            yield torch.bernoulli(res, generator=generator).bool()", contracts=["homogenous_poisson_bernoulli_approx_online" + ANY], name="loop contract: two slices per step"),
 ]
